@@ -543,8 +543,10 @@ class X12LoopDataNode(X12DataNode):
         ret = X12LoopDataNode(self.x12_map_node)
         ret.end_loops = list(self.end_loops)
         ret.parent = self.parent
-        for child in self.children:
-            ret.children.append(child.copy())
+        for child in [x for x in self.children if x.type is not None]:
+            new_child = child.copy()
+            new_child.parent = ret
+            ret.children.append(new_child)
         return ret
 
     @property
